@@ -162,6 +162,16 @@ CLAIMED = {
             "Trusted: TLC. Sizes >= 15.99 EB are not driven (\"16.00 EB\" cannot be parsed back into 64 bits). A seconds "
             "field of 60 after rounding is accepted.",
             "DESIGN.md 3.18"),
+    "C11": ("TLA+ definitions of RFC 4648 encoding, strict decoding, rot13, independent %HH and C-style unescapers with "
+            "permitted-alphabet predicates, netloc rendering (spec/TextEnc): TLC checks round trip, strictness on every "
+            "4-symbol text over a reduced alphabet and RFC vectors, and validates recorded batches",
+            "Exhaustive: every byte string of length 0..1 (length 2 on a dense grid; thorough: all), 3k-65k strings of length "
+            "3, random longer, both alphabets interleaved in one process so that state carried between calls is exercised; "
+            "every text of length 0..5 over a reduced symbol set and 8-symbol texts with every 5-symbol head or tail, "
+            "single-symbol corruptions at every position; rot13 / escapers on every byte value and random strings; netloc "
+            "for 60 hosts x ports 0..65535 on a grid.",
+            "Trusted: TLC. Non-canonical trailing bits in a padded quartet are accepted (the statement is silent).",
+            "DESIGN.md 3.11"),
 }
 
 NOT_YET = "check not built yet in this round (planned: see DESIGN.md section 3)"
